@@ -39,7 +39,7 @@ def rand_body(rng, later, size, pid, undef=True):
             return ev.role(rng.choice(['r1', 'r2']))
         if r < 0.9:
             pid[0] += 1
-            return ev.probe(pid[0], rng.choice([3, 4]), rng.choice(['f1', 'f2']))
+            return ev.probe(pid[0], rng.choice([3, 4]), rng.choice(['f1', 'f2']), derived=rng.random() < 0.4)
         return rng.choice([ev.T, ev.F])
     r = rng.random()
     if r < 0.25:
@@ -140,6 +140,30 @@ def run(ctx):
                     cases.append({'kind': 'same', 'a': a['obs'], 'b': b['obs'], '_orig': a['_texts'], '_inlined_rule': n,
                                   '_inlined_text': paste(texts[n], d[n], p, '(' + texts[target_name] + ')'), '_call': a['_call'], '_creds': a['_creds'], '_dflt': a['_dflt']})
                     n_inl += 1
+    # sessions: a reference is resolved against the definition that is current at the time of
+    # the call - the rule store of a long-lived enforcer is replaced / merged between calls
+    sessions = []
+    for i in range(40 if q else 1000):
+        leafs = [ev.role('r1'), ev.role('r2'), ev.T, ev.F]
+        names = ['a1', 'a2', 'a3']
+        start = [('a1', ev.rule('a2')), ('a2', rng.choice([ev.rule('a3'), ev.Not(ev.rule('ghost')), ev.rule('ghost')])), ('a3', rng.choice(leafs)),
+                 ('default', rng.choice(leafs))]
+        dflt = rng.choice([None, ('name', 'a3'), ('opt', 'default')])
+        sess = ec.Session(start, dflt, via=rng.choice(['rules_obj', 'dict']))
+        for step in range(rng.randint(2, 5)):
+            for _ in range(rng.randint(1, 2)):
+                sess.enforce({'by': 'name', 'name': rng.choice(['a1', 'a2', 'ghost', 'a3'])}, {}, rng.choice(CREDS), checklog=1)
+            redefine = rng.choice(['a3', 'default', 'a2'])
+            body = rng.choice(leafs) if redefine != 'a2' else rng.choice([ev.rule('a3'), ev.rule('ghost'), ev.Not(ev.rule('a3'))])
+            sess.set_rules([(redefine, body)], overwrite=False, how=rng.choice(['rules_obj', 'dict']))
+        sess.enforce({'by': 'name', 'name': 'a1'}, {}, rng.choice(CREDS), checklog=1)
+        sess.enforce({'by': 'name', 'name': 'ghost'}, {}, rng.choice(CREDS), checklog=1)
+        sessions.append(sess)
+    for si, evi in ec.judge_sessions(ctx, sessions):
+        ctx.violation('session:reference-not-resolved-against-current-definition',
+                      'after a rule was redefined through the API a rule: reference (or its default-rule fallback) still decides by an earlier definition',
+                      {'history': sessions[si].log[:40], 'failing_event_index': evi, 'default_rule': repr(sessions[si].dflt)})
+    ctx.cover['sessions'] = len(sessions)
     bad = ec.judge(ctx, cases)
     for c in bad:
         if c['kind'] == 'same':
